@@ -296,6 +296,16 @@ func runC26(c *Ctx) {
 				fieldIs("view", "signTolerance")(q.Y) && fieldIs("view", "signTolerance")(r.Y)
 		}
 		c.R.Check("R-remainder", "calculateOffsetTimeV0|quotient and remainder pair", ok, c.pos(f.Pos()), det)
+		// ... on every return: no exit hands back a remainder that forgets the elapsed time (a constant)
+		badRet := ""
+		for _, ret := range ssau.Returns(f) {
+			if len(ret.Results) == 2 {
+				if _, isK := ssau.ResolveSpill(ret.Results[1]).(*ssa.Const); isK {
+					badRet = c.posOf(ret)
+				}
+			}
+		}
+		c.R.Check("R-remainder", "calculateOffsetTimeV0|every return carries the remainder", badRet == "", c.pos(f.Pos()), "the return at "+badRet+" hands back a constant remainder: the caller restarts the view at now and the elapsed part of the slot is lost")
 	}
 
 	// R-carry
